@@ -376,7 +376,7 @@ def run(ctx) -> core.Report:
 def search(ctx, rep):
     rng = core.Rng(ctx["seed"] + 32452843)
     r2 = core.Report()
-    recs = route_recipes(rng, True)
+    recs = route_recipes(rng, False)
     bounds_cases(r2, recs)
     if r2.oracle_failures:
         return r2.oracle_failures[0]
